@@ -220,6 +220,42 @@ def interface_details(node, kind):
     return out
 
 
+def interface_prose(node, kind):
+    """name -> prose, read off the definition with a few regular expressions (independent of doctrans' docstring parsers):
+    `:cvar name:` / `:param name:` fields of a ReST docstring (up to the next field or blank line), `help=` of add_argument.
+    Returns None when the docstring is not in ReST field form (google / numpydoc): the caller then has no opinion."""
+    import re
+
+    if node is None:
+        return None
+    if kind == "argparse_function":
+        out = {}
+        for n, d in interface_details(node, kind).items():
+            h = d.get("help")
+            out[n] = h.get("v") if isinstance(h, dict) else None
+        return out
+    doc = ast.get_docstring(node, clean=True) if isinstance(node, (ast.ClassDef, ast.FunctionDef, ast.AsyncFunctionDef)) else None
+    if doc is None:
+        return {}
+    if re.search(r"^\s*(Args|Arguments|Parameters|Returns|Attributes)\s*:?\s*$", doc, re.M):
+        return None
+    out = {}
+    for m in re.finditer(r"^[ \t]*:(?:cvar|param|ivar)\s+(\w+):[ \t]*(.*(?:\n(?![ \t]*:|[ \t]*$).*)*)", doc, re.M):
+        out[m.group(1)] = m.group(2)
+    return out
+
+
+def norm_prose(text):
+    """Prose modulo white space, a trailing full stop and an announced default ('. Defaults to 5', ', defaults to x')."""
+    import re
+
+    if text is None:
+        return None
+    t = " ".join(str(text).split())
+    t = re.split(r"[.,;]?\s*(?:[Dd]efaults? to|[Dd]efault value is|[Dd]efault:)\s", t + " ", maxsplit=1)[0]
+    return t.strip().rstrip(".").strip()
+
+
 def _val(node):
     if node is None:
         return None
